@@ -51,6 +51,8 @@ def ws2dwcvp(y, nodata, p, llas, robust, out, lopt):
     d_eigs[0] = 1e-15
 
     if n > 4:
+        # masked cells may hold nan / inf: keep them out of the residuals
+        y = np.where(w == 0, 0.0, y)
         z = np.zeros(m)
         znew = np.zeros(m)
         wa = np.zeros(m)
